@@ -238,6 +238,9 @@ int main() {
     auto w = std::make_unique<W>();
     std::string line;
     while (std::getline(std::cin, line)) {
+        // "<line> +cc": after the line's own action (which posts one completion) the client's cancel() + close() is posted too, so that it runs
+        // right behind that completion handler and ahead of whatever the handler posts in turn
+        bool cc = false; if (line.size() > 4 && line.compare(line.size() - 4, 4, " +cc") == 0) { cc = true; line.erase(line.size() - 4); }
         std::istringstream is(line); std::string cmd; is >> cmd; verif::LOG.clear(); bool bad = false;
         W& X = *w;
         if (cmd == "new") { verif::SOCKS.clear(); verif::sim_resolver::pending = nullptr; w.reset(); verif::SOCKS.clear(); verif::next_sock = 0; verif::LAZY = false; verif::vclock::now_ticks = 0; verif::LOG.clear(); w = std::make_unique<W>(); }
@@ -286,6 +289,7 @@ int main() {
         else if (cmd == "nop") {}
         else bad = true;
         if (bad) { std::puts("bad-op"); std::fflush(stdout); continue; }
+        if (cc) asio::post(w->ioc, [&w]() { w->s->cancel(); w->s->close(); });
         for (;;) { w->ioc.restart(); if (w->ioc.poll() == 0) break; }
         std::string out; for (auto& e : verif::LOG) { if (!out.empty()) out += " | "; out += e; }
         std::printf("%s ; locked=%d open=%d cur=K%d wc=%d sp=%d caps=%s\n", out.empty() ? "-" : out.c_str(), (int)w->s->_conn_mtx.is_locked(), (int)w->s->is_open(), w->s->_stream_ptr->st->id, (int)w->s->was_connected(),
